@@ -637,7 +637,58 @@ def s_der_blobs():
     return st.one_of(m, m, m, st.binary(max_size=70)).map(lambda b: {"blob": b.hex()})
 
 
+# ------------------------------------------------------------------ one long-lived Key object queried in any order
+
+
+def o_key_history(case):
+    """sec / hash160 / address / wif asked of ONE Key object for both compression settings in a generated order (the
+    object caches its hash160 per compression setting): every answer depends only on the question"""
+    net = NETS[case["net"]]
+    d, comp = case["d"], case["compressed"]
+    key = net.keys.private(d, is_compressed=comp) if case["private"] else net.keys.public(_pub(d), is_compressed=comp)
+    pt = _pub(d)
+    labels = ["private" if case["private"] else "public-only"]
+    seen = set()
+    for step, (what, flag) in enumerate(case["ops"]):
+        eff = comp if flag is None else bool(flag)
+        sec = refenc.sec_encode(pt[0], pt[1], eff)
+        h160 = refhash.hash160(sec)
+        kw = {} if flag is None else {"is_compressed": bool(flag)}
+        where = "%s d=%#x default-compressed=%r step %d %s(%s) after %s" % (case["net"], d, comp, step, what, kw, case["ops"][:step])
+        if what == "sec":
+            if key.sec(**kw) != sec:
+                _bad("key:history:sec", "%s = %s, reference %s" % (where, key.sec(**kw).hex(), sec.hex()))
+        elif what == "hash160":
+            if key.hash160(**kw) != h160:
+                _bad("key:history:hash160", "%s = %s, reference %s" % (where, key.hash160(**kw).hex(), h160.hex()))
+        elif what == "address":
+            a = key.address(**kw)
+            payload = refenc.b58check_decode(a) if isinstance(a, str) else None
+            if payload is None or not payload.endswith(h160) or not 1 <= len(payload) - 20 <= 2:
+                _bad("key:history:address", "%s = %r, which does not carry hash160 %s" % (where, a, h160.hex()))
+        elif what == "wif" and case["private"]:
+            w = key.wif(**kw)
+            payload = refenc.b58check_decode(w) if isinstance(w, str) else None
+            tail = d.to_bytes(32, "big") + (b"\x01" if eff else b"")
+            if payload is None or not payload.endswith(tail):
+                _bad("key:history:wif", "%s = %r" % (where, w))
+        if (what, eff) in seen or (what, not eff) in seen:
+            labels.append("asked-again-or-other-compression")
+        seen.add((what, eff))
+    return sorted(set(labels))
+
+
+def s_key_history():
+    op = st.tuples(st.sampled_from(["sec", "hash160", "hash160", "address", "wif"]), st.sampled_from([None, True, False])).map(list)
+    usable = [c for c in NET_CODES]
+    return st.fixed_dictionaries({"net": st.sampled_from(usable), "d": scalars(), "compressed": st.booleans(), "private": st.booleans(),
+                                  "ops": st.lists(op, min_size=3, max_size=10)})
+
+
 SUBCHECKS = [
+    SubCheck("key_history", o_key_history, strategy=s_key_history, budget=(1500, 80000),
+             nontrivial=lambda c, l: "asked-again-or-other-compression" in l,
+             rule="one Key object (private or public-only, any network): 3-10 questions sec / hash160 / address / wif, each with is_compressed None / True / False, in generated order; every answer equals the reference for that compression setting whatever was asked before; non-trivial = a question repeated or asked for the other compression"),
     SubCheck("wif_all_networks", o_wif, cases=cases_wif_all_networks, exhaustive=True, nontrivial=nt_wif,
              rule="every non-Groestl network x exponents {1,2,0xff,0x100,2^128,2^248-1,2^248,2^255,n-2,n-1}: wif text == Base58Check("
                   "prefix||d||[01]) for both flags, parse.wif returns the same exponent, flag, sec, hash160 (vs reference d*G), address"),
